@@ -5,12 +5,27 @@ namespace Pytask
 namespace Engine
 open Sorter
 
+theorem runPhases_log (F : BodyFn) (P : Project) (g : G) (cfg : Cfg) (s : Sess) (t : TaskSpec) :
+    (runPhases F P g cfg s t).2.log = s.log ∨ (runPhases F P g cfg s t).2.log = s.log ++ [t.id] := by
+  unfold runPhases
+  split
+  · split
+    · simp
+    · simp only []
+      split <;> (try split) <;> (by_cases hb : behInvokes t.beh = true <;> simp [hb])
+  · simp
+
+@[simp] theorem processReport_log (P : Project) (g : G) (cfg : Cfg) (s : Sess) (t : TaskSpec) (r : Raised) :
+    (processReport P g cfg s t r).log = s.log := by
+  unfold processReport
+  cases r <;> simp only [] <;> (try split) <;> rfl
+
 /-- The protocol appends at most the task's own id to the body log. -/
 theorem protocol_log (F : BodyFn) (P : Project) (g : G) (cfg : Cfg) (s : Sess) (t : TaskSpec) :
     (protocol F P g cfg s t).log = s.log ∨ (protocol F P g cfg s t).log = s.log ++ [t.id] := by
   unfold protocol
-  generalize setupChain P g cfg s t Generated.setupOrder = r
-  cases r <;> simp only [] <;> (try split) <;> (try split) <;> (try split) <;> (try split) <;> (try split) <;> simp_all
+  simp only [processReport_log]
+  exact runPhases_log F P g cfg s t
 
 theorem find?_id {P : Project} {t : Nat} {spec : TaskSpec} (h : Project.find? P t = some spec) : spec.id = t := by
   unfold Project.find? at h
